@@ -5,6 +5,7 @@ import Rare.Proofs.C13GoSort
 import Rare.Proofs.F64Parse
 import Rare.Proofs.C13Date
 import Rare.Proofs.C13Groups
+import Rare.Proofs.C13Axes
 import Rare.Gen.C13
 /-!
 # C13 – Output ordering is a deterministic function of the aggregated data
@@ -1085,6 +1086,158 @@ example : (∀ k ∈ zoneKeys, (fun _ => some zoneLayout) k = some zoneLayout)
 /-- the hypothesis of `reduce_rows_deterministic` holds on weekday GROUPS with numeric sort keys -/
 example : ctxUniform (realOracle noDates) sortSets ([asc "Mon", asc "Fri", asc "Wed", asc "Sun"].map reduceWitnessKey) = true
     ∧ ctxUniform (realOracle noDates) sortSets [asc "Mon", asc "Fri", asc "Wed", asc "Sun"] = true := by decide +kernel
+
+
+/-! ## the render loop and the two axes of `table` / `heatmap` / `spark` (round 4b)
+
+`cmd/tabulate.go`, `heatmap.go`, `spark.go` build `rowSorter` and `colSorter` with two `BuildSorter` calls
+before the aggregation loop and hand both to every render (`Rare/Model/C13Axes.lean`).  The captured
+variables of a `contextual` / `date` closure therefore (a) survive from one render to the next and (b) must
+belong to ONE axis: `lookupSorter` calls `ByContextual()` / `ByDateWithContextual()` inside its switch, so two
+calls give two closures. -/
+
+/-- **No information flows between the axes**, for any data, any sort names and any sort routine: the row
+order of every render is what the row sorter alone makes of the rows seen so far – it does not depend on
+the column keys (`--sort-rows contextual --sort-cols contextual` on weekday rows and month columns sorts
+both by calendar), and vice versa. -/
+theorem table_axes_independent {σr σc : Type} (rowRun : σr → List NV → List NV × σr)
+    (colRun : σc → List NV → List NV × σc) (sr : σr) (sc : σc) (renders : List (List NV × List NV)) :
+    tableRenders rowRun colRun sr sc renders
+      = (axisRenders colRun sc (renders.map (·.1))).zip (axisRenders rowRun sr (renders.map (·.2)))
+    ∧ (tableRenders rowRun colRun sr sc renders).map (·.2) = axisRenders rowRun sr (renders.map (·.2))
+    ∧ (tableRenders rowRun colRun sr sc renders).map (·.1) = axisRenders colRun sc (renders.map (·.1)) := by
+  have h := tableRenders_split rowRun colRun renders sr sc
+  have hl : (axisRenders colRun sc (renders.map (·.1))).length = (axisRenders rowRun sr (renders.map (·.2))).length := by
+    rw [axisRenders_length, axisRenders_length, List.length_map, List.length_map]
+  refine ⟨h, ?_, ?_⟩
+  · rw [h]; exact List.map_snd_zip (Nat.le_of_eq hl.symm)
+  · rw [h]; exact List.map_fst_zip (Nat.le_of_eq hl)
+
+/-- **The render loop**: one closure, built once, sorts the keys present at every refresh (live mode) and at
+the end.  If the keys of the final screen are uniform for the mode (always, for text/numeric/value), EVERY
+render – each showing some duplicate-free part of those keys in whatever order the map hands them over –
+is that part sorted by the one specified order; what the closure inferred during earlier renders never
+changes a later one, and two histories that differ only in map order give the same screens. -/
+theorem render_loop_deterministic (o : Oracle) (sets : List SortSet) (m : Mode) (rev : Bool)
+    (alg : List NV → Algo NV (List NV)) (hc : SortContract alg)
+    (items : List NV) (hnd : (items.map (·.name)).Nodup)
+    (hu : modeUniform o sets m (items.map (·.name)) = true)
+    (arrivals : List (List NV)) (ha : ∀ a ∈ arrivals, a.Nodup ∧ ∀ x ∈ a, x ∈ items) :
+    axisRenders (fun s l => Algo.run (finalSorter o sets m rev).cmp s (alg l)) (finalSorter o sets m rev).init arrivals
+      = arrivals.map (isort (finalSpecLess o sets items m rev))
+    ∧ ∀ arrivals', SameRenders arrivals arrivals' →
+        axisRenders (fun s l => Algo.run (finalSorter o sets m rev).cmp s (alg l)) (finalSorter o sets m rev).init arrivals'
+          = axisRenders (fun s l => Algo.run (finalSorter o sets m rev).cmp s (alg l)) (finalSorter o sets m rev).init arrivals := by
+  have hf := finalSorter_faithful o sets m rev items hu
+  have ho := finalSpec_orderOn o sets m rev items hnd
+  refine ⟨axisRenders_faithful alg hc items hf ho arrivals ha, fun arrivals' hp => ?_⟩
+  rw [axisRenders_faithful alg hc items hf ho arrivals ha,
+    axisRenders_faithful alg hc items hf ho arrivals' (forall₂_perm_within hp ha)]
+  exact (map_isort_perm ho hp ha).symm
+
+/-- **`table` / `heatmap` / `spark` with `--sort-rows` and `--sort-cols`**: every render shows the columns
+present sorted by the column mode's order and the rows present sorted by the row mode's order.  The two
+axes may be of different kinds (weekday rows, month columns, both `contextual`): uniformity is asked of
+each axis separately. -/
+theorem table_renders_deterministic (o : Oracle) (sets : List SortSet) (mr mc : Mode) (revr revc : Bool)
+    (alg : List NV → Algo NV (List NV)) (hc : SortContract alg)
+    (rows cols : List NV) (hndr : (rows.map (·.name)).Nodup) (hndc : (cols.map (·.name)).Nodup)
+    (hur : modeUniform o sets mr (rows.map (·.name)) = true) (huc : modeUniform o sets mc (cols.map (·.name)) = true)
+    (renders : List (List NV × List NV))
+    (hr : ∀ r ∈ renders, (r.1.Nodup ∧ ∀ x ∈ r.1, x ∈ cols) ∧ (r.2.Nodup ∧ ∀ x ∈ r.2, x ∈ rows)) :
+    tableRenders (fun s l => Algo.run (finalSorter o sets mr revr).cmp s (alg l))
+        (fun s l => Algo.run (finalSorter o sets mc revc).cmp s (alg l))
+        (finalSorter o sets mr revr).init (finalSorter o sets mc revc).init renders
+      = renders.map (fun r => (isort (finalSpecLess o sets cols mc revc) r.1, isort (finalSpecLess o sets rows mr revr) r.2)) := by
+  rw [tableRenders_split]
+  have hcols : ∀ a ∈ renders.map (·.1), a.Nodup ∧ ∀ x ∈ a, x ∈ cols := by
+    intro a ha
+    obtain ⟨r, hr', e⟩ := List.mem_map.mp ha
+    exact e ▸ (hr r hr').1
+  have hrows : ∀ a ∈ renders.map (·.2), a.Nodup ∧ ∀ x ∈ a, x ∈ rows := by
+    intro a ha
+    obtain ⟨r, hr', e⟩ := List.mem_map.mp ha
+    exact e ▸ (hr r hr').2
+  rw [(render_loop_deterministic o sets mc revc alg hc cols hndc huc _ hcols).1,
+    (render_loop_deterministic o sets mr revr alg hc rows hndr hur _ hrows).1]
+  clear hr hcols hrows
+  induction renders with
+  | nil => rfl
+  | cons r rest ih => simp only [List.map_cons, List.zip_cons_cons, ih]
+
+/-- The render loop of `rare reduce` (`aggr.Groups(sorter)` at every refresh with the one sorter built before
+the loop): every render is the groups present, ranked by (sort key, group text). -/
+theorem reduce_render_loop (o : Oracle) (sets : List SortSet) (rev : Bool) (sortKey : Key → Key)
+    (alg : List Key → Algo Key (List Key)) (hc : SortContract alg)
+    (groups : List Key) (hu : ctxUniform o sets (groups.map sortKey) = true)
+    (arrivals : List (List Key)) (ha : ∀ a ∈ arrivals, a.Nodup ∧ ∀ x ∈ a, x ∈ groups) :
+    let less := if rev then revLess (contextualSpec o sets (groups.map sortKey)) else contextualSpec o sets (groups.map sortKey)
+    axisRenders (fun s l => Algo.run (groupsCmp o sets rev (some sortKey)) s (alg l)) ({}, ()) arrivals
+      = arrivals.map (isort (groupsSpecLess less sortKey)) := by
+  intro less
+  have hfS := reduceSorter_faithful o sets rev (groups.map sortKey) hu
+  have hfG : Faithful (groupsCmp o sets rev (some sortKey)) ({}, ()) (· ∈ groups) (groupsSpecLess less sortKey) :=
+    groupsCmpExpr_faithful hfS sortKey (· ∈ groups) (fun g hg => List.mem_map_of_mem hg)
+  have ho : OrderOn (· ∈ groups) (groupsSpecLess less sortKey) :=
+    groupsSpec_orderOn sortKey (reduceLess_orderOn o sets rev (groups.map sortKey) _)
+  exact axisRenders_faithful alg hc groups hfG ho arrivals ha
+
+/-- **Where the closures are created** (regenerated from /repo): no package-level variable of the sorting
+package, of `cmd/helpers/sorting.go` or of the commands holds a closure made by `ByContextual`, `ByContextualEx`,
+`ByDate` or `ByDateWithContextual` (such a variable would be shared by every `BuildSorter` call of the process –
+`switches_match_source` pins that `lookupSorter` calls the constructors inside its switch); and every command
+creates its sorters in its own function body, outside any closure (once, before the aggregation loop), one
+`BuildSorterOrFail` call per axis – the shape `tableRenders` / `axisRenders` mirror. -/
+theorem sorters_built_per_axis :
+    Gen.C13.statefulGlobals = []
+    ∧ Gen.C13.sorterSites = [
+        ("cmd/histo.go", 0, "sorter := helpers.BuildSorterOrFail(sortName)"),
+        ("cmd/bargraph.go", 0, "sorter := helpers.BuildSorterOrFail(sortName)"),
+        ("cmd/tabulate.go", 0, "rowSorter := helpers.BuildSorterOrFail(sortRows)"),
+        ("cmd/tabulate.go", 0, "colSorter := helpers.BuildSorterOrFail(sortCols)"),
+        ("cmd/heatmap.go", 0, "rowSorter := helpers.BuildSorterOrFail(sortRows)"),
+        ("cmd/heatmap.go", 0, "colSorter := helpers.BuildSorterOrFail(sortCols)"),
+        ("cmd/spark.go", 0, "rowSorter := helpers.BuildSorterOrFail(sortRows)"),
+        ("cmd/spark.go", 0, "colSorter := helpers.BuildSorterOrFail(sortCols)"),
+        ("cmd/reduce.go", 0, "var sorter = sorting.ByContextual()")] := by
+  decide +kernel
+
+def axisNV (l : List String) : List NV := l.map (fun s => ⟨asc s, 0⟩)
+
+/-- The contextual sorter `lookupSorter` returns, run by Go's insertion sort. -/
+def ctxRun : CtxState × Unit → List NV → List NV × (CtxState × Unit) :=
+  goInsertionSort (modeSorter (realOracle noDates) sortSets .contextual).cmp
+
+/-- What must NOT happen (one closure per sort NAME, shared by `--sort-rows contextual --sort-cols contextual`):
+weekday rows × month columns, kernel computation with Go's insertion sort.  The columns are sorted first and
+fix the month table; the shared closure then meets `Thu`, falls back for good and lists the rows as text
+(`Fri Mon Thu Tue Wed`), and from the second render on the columns as well (`Apr Feb Jan Mar`).  With the two
+closures of the real code both axes are in calendar order at every render, and each axis alone is uniform. -/
+theorem shared_sorter_counterexample :
+    tableRendersShared ctxRun ctxRun ({}, ())
+        [(axisNV ["Jan", "Feb", "Mar", "Apr"], axisNV ["Thu", "Mon", "Fri", "Tue", "Wed"]),
+         (axisNV ["Mar", "Jan", "Apr", "Feb"], axisNV ["Thu", "Mon", "Fri", "Tue", "Wed"])]
+      = [(axisNV ["Jan", "Feb", "Mar", "Apr"], axisNV ["Fri", "Mon", "Thu", "Tue", "Wed"]),
+         (axisNV ["Apr", "Feb", "Jan", "Mar"], axisNV ["Fri", "Mon", "Thu", "Tue", "Wed"])]
+    ∧ tableRenders ctxRun ctxRun ({}, ()) ({}, ())
+        [(axisNV ["Jan", "Feb", "Mar", "Apr"], axisNV ["Thu", "Mon", "Fri", "Tue", "Wed"]),
+         (axisNV ["Mar", "Jan", "Apr", "Feb"], axisNV ["Thu", "Mon", "Fri", "Tue", "Wed"])]
+      = [(axisNV ["Jan", "Feb", "Mar", "Apr"], axisNV ["Mon", "Tue", "Wed", "Thu", "Fri"]),
+         (axisNV ["Jan", "Feb", "Mar", "Apr"], axisNV ["Mon", "Tue", "Wed", "Thu", "Fri"])]
+    ∧ ctxUniform (realOracle noDates) sortSets ((axisNV ["Thu", "Mon", "Fri", "Tue", "Wed"]).map (·.name)) = true
+    ∧ ctxUniform (realOracle noDates) sortSets ((axisNV ["Jan", "Feb", "Mar", "Apr"]).map (·.name)) = true
+    ∧ ctxUniform (realOracle noDates) sortSets
+        ((axisNV ["Jan", "Feb", "Mar", "Apr"] ++ axisNV ["Thu", "Mon", "Fri", "Tue", "Wed"]).map (·.name)) = false := by
+  decide +kernel
+
+/-- the hypotheses of `table_renders_deterministic` hold on that data (a growing screen, two renders) -/
+example : let rows := axisNV ["Thu", "Mon", "Fri", "Tue", "Wed"]; let cols := axisNV ["Jan", "Feb", "Mar", "Apr"]
+    (rows.map (·.name)).Nodup ∧ (cols.map (·.name)).Nodup
+    ∧ modeUniform (realOracle noDates) sortSets .contextual (rows.map (·.name)) = true
+    ∧ modeUniform (realOracle noDates) sortSets .contextual (cols.map (·.name)) = true
+    ∧ ∀ r ∈ [(axisNV ["Feb", "Jan"], axisNV ["Thu", "Mon"]), (axisNV ["Mar", "Jan", "Apr", "Feb"], axisNV ["Wed", "Thu", "Mon", "Fri", "Tue"])],
+        (r.1.Nodup ∧ ∀ x ∈ r.1, x ∈ cols) ∧ (r.2.Nodup ∧ ∀ x ∈ r.2, x ∈ rows) := by
+  decide +kernel
 
 /-! ## non-vacuity -/
 
